@@ -15,12 +15,15 @@ func init() {
 		ID: "C33",
 		Explanation: "Decides the normal-form clause of C33 as a constructor discipline inside pkg/ui: (NF-BUILDER) a styled Text may be assembled by hand (composite literal, make, append, slice conversion) only inside the normalising API - TextBuilder's methods, TextFromSegment and the variadic Concat - or as a single-segment literal whose text is known non-empty from a dominating check; every other hand-assembly site is either audited with the reason why it preserves normal form, or reported. Today's tree has one reported site, StyleText (restyling can make neighbouring segments equal; the existing unit test pins that output, so it is recorded as a known finding rather than repaired). Content equalities (partitions/splits concatenate back) and the styledown round trip are not decided.",
 		NotCovered:  "plain content of the results; styledown render/parse round trip; Text values assembled outside pkg/ui",
-		Rules:       []string{"NF-BUILDER: who may assemble a ui.Text by hand"},
+		Rules:       []string{"NF-BUILDER: who may assemble a ui.Text by hand", "BUILDER-FRESH: TextBuilder.Text returns nil or freshly allocated storage, never the builder's own array", "SLICE-NONEMPTY: a two-bound slice of a styled text is returned only when its bounds differ (an empty text is nil)"},
 		Patterns:    []string{"./pkg/ui/..."},
-		Run:         runC33,
-		MinCounts:   map[string]int{"NF-BUILDER": 6},
+		Run:         func(p *core.Program, r *core.Report) { runC33(p, r); runBuilderFresh(p, r); runSliceNonEmpty(p, r) },
+		MinCounts:   map[string]int{"NF-BUILDER": 6, "BUILDER-FRESH": 1, "SLICE-NONEMPTY": 1},
 		Trusted:     append([]string{"the normalising API itself (TextBuilder, TextFromSegment, Concat) is the trusted base of this rule"}, trustedBase...),
 		Controls: []core.Control{
+			{Name: "revert-fix-empty-slice-of-text", Rule: "SLICE-NONEMPTY", File: "pkg/ui/text.go", Old: "\t\tif index.Lower == index.Upper {\n\t\t\t// An empty text is always nil.\n\t\t\treturn Text(nil), nil\n\t\t}\n", New: "", Fire: true, Want: "Index"},
+			{Name: "builder-hands-out-its-own-array", Rule: "BUILDER-FRESH", File: "pkg/ui/text_builder.go", Old: "\tt := append(Text(nil), tb.segs...)\n\treturn append(t, &Segment{tb.style, tb.text.String()})", New: "\treturn append(tb.segs, &Segment{tb.style, tb.text.String()})", Fire: true, Want: "TextBuilder"},
+			{Name: "benign-builder-copies-with-make", Rule: "BUILDER-FRESH", File: "pkg/ui/text_builder.go", Old: "\tt := append(Text(nil), tb.segs...)\n\treturn append(t, &Segment{tb.style, tb.text.String()})", New: "\tt := make(Text, len(tb.segs), len(tb.segs)+1)\n\tcopy(t, tb.segs)\n\treturn append(t, &Segment{tb.style, tb.text.String()})", Fire: false},
 			{Name: "revert-fix-segment-concat-by-hand", Rule: "NF-BUILDER", File: "pkg/ui/text_segment.go", Old: "\t\treturn Concat(TextFromSegment(s), T(rhs)), nil\n\tcase *Segment:", New: "\t\treturn Text{s, &Segment{Text: rhs}}, nil\n\tcase *Segment:", Fire: true, Want: "Concat", Quick: true},
 			{Name: "revert-fix-trimwcwidth-empty-segment", Rule: "NF-BUILDER", File: "pkg/ui/text.go", Old: "\t\t\tif trimmed := wcwidth.Trim(seg.Text, wmax); trimmed != \"\" {\n\t\t\t\tnewt = append(newt, &Segment{seg.Style, trimmed})\n\t\t\t}", New: "\t\t\tnewt = append(newt,\n\t\t\t\t&Segment{seg.Style, wcwidth.Trim(seg.Text, wmax)})", Fire: true, Want: "TrimWcwidth", Quick: true},
 			{Name: "revert-fix-text-plus-segment", Rule: "NF-BUILDER", File: "pkg/ui/text.go", Old: "return Concat(t, TextFromSegment(rhs)), nil", New: "return Concat(t, Text{rhs}), nil", Fire: true, Want: "Concat"},
